@@ -6,7 +6,7 @@
    the arena (Squash.v); [expand lk d t] is the recursive expansion over the notes' collected
    trees, by recursion on the depth and structural recursion on the tree: a total function
    for every lookup [lk], i.e. for every reference graph (cycles, self-loops, dangling). *)
-From IweV Require Import Str Ast Arena Project Library Squash SquashFacts.
+From IweV Require Import Str Ast RelPath Arena Project Library Squash SquashFacts.
 Local Open Scope string_scope.
 Local Open Scope list_scope.
 
@@ -154,6 +154,27 @@ Proof. exact bound_linear. Qed.
 
 Check C17_bound_linear : forall s d, bound s 1 d = s * (d + 1).
 Print Assumptions C17_bound_linear.
+
+(* The CLI path (`iwe squash`: squashed tree -> build_key_from_iter on a fresh graph ->
+   export_key) returns for an existing key at every depth, whatever the reference graph and
+   however deep the squashed tree nests its sections: it prints the rendering of the
+   expansion.  (As found the projector computed the heading level in a u8 and panicked on a
+   tree nesting sections 256 deep - finding F-C17-1, repaired: the level is a usize.) *)
+Theorem C17_cli_returns :
+  forall g, collectable g = true ->
+  forall key root d, alookup key (gr_keys g) = Some root ->
+    exists doc, collect_key g key = Ok doc /\
+      (do t <- squash g key d; squash_cli_text key t) =
+      Ok (tree_to_markdown (Opts "") [] (key_parent key) (expand (lk_graph g) d doc)).
+Proof. exact squash_cli_returns. Qed.
+
+Check C17_cli_returns :
+  forall g, collectable g = true ->
+  forall key root d, alookup key (gr_keys g) = Some root ->
+    exists doc, collect_key g key = Ok doc /\
+      (do t <- squash g key d; squash_cli_text key t) =
+      Ok (tree_to_markdown (Opts "") [] (key_parent key) (expand (lk_graph g) d doc)).
+Print Assumptions C17_cli_returns.
 
 (* the hypotheses are satisfiable by a non-trivial instance: two notes that reference each
    other (a cycle), built by the model of `import` from reader blocks, squashed at depth 3 *)
